@@ -429,7 +429,7 @@ Fixpoint resolve_conds (t : table) (l : list cond_cfg) : option (list cond) :=
   | c :: r =>
       let this :=
         match c with
-        | KVal v => Some v
+        | KVal v => match v with CSet _ _ _ => None | _ => Some v end   (* a ConditionConfig cannot carry a set *)
         | KSet k n o =>
             if ((k =? 0) || (k =? 1)) && (match o with MAll => true | _ => false end) then None
             else match lookup_set k n (t_sets t) with
